@@ -9,6 +9,10 @@ CLAIMS = {
          'Every member of util::Buffer (constructors, destructor, assignments, swap, reset, ensureWritableSize, hasWritten, append, hasRead, hasReadAll, fetch, shrink, cloneFrom) is under a CBMC function contract: representation invariant, abstract FIFO effect on (readable size, tracked byte at an arbitrary offset), frame, and memory safety for all sizes < 2^40. The FIFO property for every operation mix follows by induction over the history.',
          'Trusted: clang-AST->C printer, CBMC+SAT, weak memcpy/memmove models (weaker than libc), allocator never fails; induction over histories is a paper step.',
          'CBMC function contracts (goto-instrument --dfcc) on mechanically extracted C', '6 C07'),
+ 'C08': ('other',
+         'util::Fd: every handle operation under a CBMC function contract (reference count exact, descriptor closed exactly when the last handle goes or on close(), never twice; unbounded) plus short-history lemmas. cabinet::Cabinet<T>: representation invariant + abstract token->object map effect of alloc/free/update/at/clear checked for every cabinet state up to capacity 8 (bounded stand-in: the union in Cell rules out symbolic capacity); dead tokens stay dead across slot reuse and clear(). ObjectPool and lifetime_tag are not covered.',
+         'Trusted: printer, CBMC, std::function / std::vector models, explicit-instantiation driver. Cabinet results are B(capacity 8), not proofs. ObjectPool (variadic placement-new template) outside the printer subset: not covered.',
+         'CBMC function contracts (Fd) and bounded symbolic harnesses on the extracted real code (Cabinet)', '6 C08'),
  'C19': ('proof',
          'Per-function CBMC contracts and loop-free/complete-unwinding lemmas on the C re-printed from the real codec sources: size functions, frames (no write beyond capacity, no read outside input), exact inverse on every value, CRC/checksum/MD5/AES equal to reference definitions written from the standards.',
          'Trusted: clang-AST->C printer, CBMC+SAT, allocator never fails, libc models; std::string/vector overloads only through their shared loops; see evidence.assumptions.',
@@ -38,7 +42,7 @@ def main():
         'version': 1,
         'setup_cmd': 'python3 tools/setup_check.py',
         'hooks': {'guard': 'TBOX_VERIF', 'enable': 'none needed: contracts are checked on C extracted from the unmodified sources; native replay drivers use -fno-access-control',
-                  'baseline_off_cmd': 'cmake --build /repo/_build && ctest --test-dir /repo/_build -j8 --timeout 900',
+                  'baseline_off_cmd': 'cmake --build /repo/_build -- -k 0; ctest --test-dir /repo/_build -j8 --timeout 900',
                   'source_commits': [], 'add_only': True},
         'engines': [{'name': 'cbmc-contracts', 'path': 'tools/verif.py', 'serves_properties': sorted(CLAIMS),
                      'kind_free_text': 'clang AST -> C printer (tools/cxx2c.py) + goto-cc/goto-instrument --dfcc/cbmc 6.11 per function under contract; native ASan/UBSan replay drivers in replay/'}],
